@@ -3341,9 +3341,15 @@ def _parse_simple_lines(
         if m:
             name, args_src = m.group(1), m.group(2)
             if name in rgb_led_names:
-                red_arg = _extract_call_argument(args_src)
-                green_arg = _extract_call_argument(args_src, position=1)
-                blue_arg = _extract_call_argument(args_src, position=2)
+                red_arg = _extract_call_argument(args_src, keyword="red")
+                if red_arg is None:
+                    red_arg = _extract_call_argument(args_src)
+                green_arg = _extract_call_argument(args_src, keyword="green")
+                if green_arg is None:
+                    green_arg = _extract_call_argument(args_src, position=1)
+                blue_arg = _extract_call_argument(args_src, keyword="blue")
+                if blue_arg is None:
+                    blue_arg = _extract_call_argument(args_src, position=2)
                 red_value = _resolve_numeric_arg(red_arg, 255)
                 green_value = _resolve_numeric_arg(green_arg, 255)
                 blue_value = _resolve_numeric_arg(blue_arg, 255)
